@@ -42,7 +42,7 @@ def linger_gadget(draw):
             "explicit_states": None, "explicit_actions": None,
             "obs": [[[[ns, 1]] for ns in range(4)] for a in range(2)]}
     return {"pomdp": spec, "beliefs": [[wa, wd, wb, 0]], "revealing": True, "eps": draw(st.sampled_from([1e-2, 1e-3])), "horizon": None,
-            "min_exp": draw(st.sampled_from([2, 3, 100])), "extra_exp": 0}
+            "min_exp": 100, "extra_exp": 0}
 
 
 @st.composite
@@ -67,7 +67,7 @@ def cases(draw, tier="quick", revealing=None):
         horizon = draw(st.sampled_from([30, 60, 200]))
     return {"pomdp": spec, "beliefs": beliefs, "revealing": rev, "small_set": draw(st.sampled_from([0, 0, 1, 2])),
             "eps": draw(st.sampled_from([0, 1e-6, 1e-2])), "horizon": horizon,
-            "min_exp": draw(st.integers(0, 3)), "extra_exp": draw(st.integers(0, 2))}
+            "min_exp": draw(st.integers(0, 3)) if not (rev and draw(st.booleans())) else 100, "extra_exp": draw(st.integers(0, 2))}
 
 
 def setup(case):
@@ -211,7 +211,10 @@ def prop_planner(case, ctx):
             for a in pomdp.action_list:
                 want = float(sum(b[s] * qstar[s, view.aidx[a]] for s in sl))
                 got = float(q.policy.action_value(bel, a))
-                ctx.check(abs(got - want) <= 1e-7 * scale, f"C08.{tag}.action_value_is_belief_weighted_mdp_q",
+                # (the default solver is policy iteration, whose improvement step treats actions within np.isclose's default
+                # tolerance as tied: its values may miss the optimum by that band times the horizon - as in C01)
+                qtol = 1e-7 * scale if tag == "qmdp" else max(1e-7 * scale, (1e-5 * float(np.max(np.abs(qstar[np.isfinite(qstar)]))) + 1e-8) / (1 - arr.gamma))
+                ctx.check(abs(got - want) <= qtol, f"C08.{tag}.action_value_is_belief_weighted_mdp_q",
                           lambda: f"belief {b.tolist()} action {a}: {got} vs {want}")
             qv = float(q.policy.value(bel))
             qmax = max(float(q.policy.action_value(bel, a)) for a in pomdp.action_list)
@@ -238,7 +241,8 @@ def prop_planner(case, ctx):
                           lambda: f"belief {b.tolist()}: QMDP {qv} outside [{lo5},{up5}]")
     if case["revealing"]:
         ctx.event("revealing")
-        if horizon is None and eps > 0:
+        if horizon is None and eps > 0 and case["min_exp"] >= 50:
+            # (with a generous expansion budget - the default is 100 rounds - the belief set holds every reachable belief)
             # observations reveal the state: at the initial belief and at the point beliefs reachable from it the
             # point-based value must also not fall short of the optimum by more than the slack of its threshold
             slack = 2 * eps / (1 - arr.gamma) + 1e-7 * scale
